@@ -563,6 +563,7 @@ type runner struct {
 	hdrCoq  map[string]string // Gallina text of every header the harness built, by hash
 	hazards bool              // also generate the two inputs listed as known findings (they kill the kernel)
 
+	inRedo      bool
 	forceReplay int // the next replay uses this variant
 	script []string // scripted operations still to run: interleaving templates that random choice rarely lines up
 
@@ -1055,8 +1056,18 @@ type voteEntry struct {
 }
 
 func (rn *runner) doVotes(kind int, h uint64, r uint32, pkh string, entries []voteEntry) {
+	if !rn.inRedo && rn.w.r.chance(1, 10) {
+		// an entry for some block that carries no signature at all
+		entries = append(append([]voteEntry{}, entries...), voteEntry{hash: fmt.Sprintf("unsigned-%d", rn.w.r.below(3)), sigs: nil})
+		rn.stats["entry_without_signatures"]++
+	}
 	if rn.pendingCrash >= 0 {
-		rn.redo = func() { rn.stats["redelivered_votes"]++; rn.doVotes(kind, h, r, pkh, entries) }
+		rn.redo = func() {
+			rn.stats["redelivered_votes"]++
+			rn.inRedo = true
+			rn.doVotes(kind, h, r, pkh, entries)
+			rn.inRedo = false
+		}
 	}
 	rn.touched[hr{h, r}] = true
 	proofs := map[string][]gcrypto.SparseSignature{}
